@@ -148,7 +148,8 @@ class Check:
                 os.makedirs(os.path.dirname(os.path.join(td, rel)), exist_ok=True)
                 with open(os.path.join(td, rel), 'w') as f:
                     f.write(rel + '\n')
-            add.append("install_subdir('instree', install_dir: 'share/c06tree', exclude_files: ['mm/mid.txt'])\n")
+            add.append("install_subdir('instree', install_dir: 'share/c06tree', exclude_files: ['mm/mid.txt', 'top1.txt', 'aa/second.txt', 'zz/none.txt', 'aa/first.txt'], "
+                       "exclude_directories: ['zz', 'nn', 'kk', 'aa/deep', 'bb'])\n")
             add.append("fs = import('fs')\nconfigure_file(output: 'c06_listing.txt', command: [py, '-c', 'import sys; open(sys.argv[1], \"w\").write(\"x\")', '@OUTPUT@'])\n")
             with open(os.path.join(sd, 'inst.h'), 'w') as f:
                 f.write('#define INST 1\n')
@@ -212,6 +213,17 @@ class Check:
                         "z_dep = dependency('zlib', required: false)\n"
                         "nope_dep = dependency('no-such-dependency-anywhere', required: false)\n"
                         "m_dep = meson.get_compiler('c').find_library('m', required: false)\n")
+        # include_directories() of a directory whose build-tree counterpart only comes into being later in the same configuration
+        # (a subdir() further down): whether -I<builddir>/c06later is emitted must not depend on the directory having been
+        # left there by an earlier run
+        head.append("inc_later = include_directories('c06later')\n")
+        os.makedirs(os.path.join(sd, 'c06later'), exist_ok=True)
+        with open(os.path.join(sd, 'c06later', 'meson.build'), 'w') as f:
+            f.write("configure_file(output: 'c06later.h', configuration: {'LATER': 1})\n")
+        with open(os.path.join(sd, 'c06_later_main.c'), 'w') as f:
+            f.write('#include "c06later.h"\nint main(void) { return LATER - 1; }\n')
+        add.append("subdir('c06later')\nexecutable('c06_later_user', 'c06_later_main.c', include_directories: inc_later)\n")
+        cfg_outputs.append('c06later/c06later.h')
         with open(os.path.join(sd, 'meson.build')) as f:
             lines = f.readlines()
         # project arguments must be added before the first target: right after the preamble
